@@ -197,7 +197,10 @@ def one_case(ctx, data, path, msgs, lines, pending, flags=None, fixed=None, shar
     it = intent_text(trd)                  # what was asked for (input of the specification)
     fmt = '%s %s %%s %s %s' % (rc.log_text(msgs), '-' if types is None else ','.join(map(str, types)),
                                '-' if sources is None else ','.join(map(str, sources)), 'n' if max_bytes is None else max_bytes)
-    lines.append('rdread ' + (fmt % rt) + (' 1' if require_p1 else ' 0'))
+    # the literal model of the route taken: the constructor's chain, or the constructor without the range followed by
+    # filter_in_place(range) (which slices the type-filtered index)
+    routed = via == 'filter_in_place' and tr is not None and style // 6 % 3 != 2
+    lines.append(('rdreadfip ' if routed else 'rdread ') + (fmt % rt) + (' 1' if require_p1 else ' 0'))
     lines.append('rdspec ' + (fmt % it))
     replay = {'file': data.hex(), 'types': types, 'time_range': trd, 'sources': sources, 'max_bytes': max_bytes, 'flags': list(flags),
               'require_p1': require_p1, 'style': style}
@@ -213,6 +216,13 @@ def judge(ctx, replay, res, flags, msgs, data, model_out, spec_out):
     if replay.get('require_p1') and spec_out not in ('IndexError', 'bad-args'):
         # read_next(require_p1_time=True): additionally only messages carrying a valid P1 time
         spec_out = ','.join(x for x in spec_out.split(',') if x and msgs[int(x)]['timeNs'] is not None)
+    # Finding C10/filter-in-place-time-range-on-type-filtered-reader: filter_in_place(time range) on a reader constructed with
+    # a type filter slices the type-filtered index. A result that differs from the specification is attributed to it only
+    # on that call form and only if it is exactly what that mechanism computes (the Lean route model); anything else is
+    # reported under the general signatures.
+    fip = replay.get('via') == 'filter_in_place' and replay.get('types') is not None and replay.get('time_range') is not None \
+        and replay.get('style', 0) // 6 % 3 != 2
+    FIP_SIG = 'C10/filter-in-place-time-range-on-type-filtered-reader'
     if res[0] == 'raise':
         kind = res[1].split(':')[0]
         if model_out != kind:
@@ -272,12 +282,22 @@ def judge(ctx, replay, res, flags, msgs, data, model_out, spec_out):
         if ','.join(map(str, ords)) != model_out:
             ctx.disagree('reader returned ordinals %s, model %s' % (ords[:20], model_out[:80]), replay)
         if ','.join(map(str, ords)) != spec_out:
+            if fip and ','.join(map(str, ords)) == model_out:
+                ctx.violation(FIP_SIG, 'MixedLogReader(message_types=%s).filter_in_place(time range) returned messages %s, the '
+                              'matching messages of the unfiltered read are [%s]' % (replay['types'], ords[:30], spec_out[:120]), replay)
+                ctx.count('finding_filter_in_place_after_types_reproduced')
+                return
             ctx.violation('C10/filtered-read-differs-from-spec',
                           'reader returned messages %s, the matching messages of the unfiltered read are [%s]' % (ords[:30], spec_out[:120]), replay)
             return
     else:
         n_spec = len([x for x in spec_out.split(',') if x]) if spec_out != 'IndexError' else -1
         if len(out) != n_spec:
+            if fip and model_out not in ('IndexError', 'bad-args') and len(out) == len([x for x in model_out.split(',') if x]):
+                ctx.violation(FIP_SIG, 'MixedLogReader(message_types=%s).filter_in_place(time range) returned %d messages, '
+                              'spec has %d' % (replay['types'], len(out), n_spec), replay)
+                ctx.count('finding_filter_in_place_after_types_reproduced')
+                return
             ctx.violation('C10/filtered-read-differs-from-spec', 'reader returned %d messages, spec has %d' % (len(out), n_spec), replay)
             return
         got = [(int(o), d) for o, (_, d) in zip([x for x in spec_out.split(',') if x], got)]
